@@ -12,6 +12,7 @@
 //       multiset).  L1 ties accept either.  Coincident lines are judged by c and membership only.
 //  (iii) laws: lat/lon/azi overloads == GeodesicLine overloads bit for bit; All sorted by distance from p0; segmode is the
 //       documented function of the returned point.
+#include "harness/value_semantics.hpp"
 #include <GeographicLib/Intersect.hpp>
 #include <unordered_map>
 #include "harness/geod_common.hpp"
@@ -40,7 +41,8 @@ static std::vector<EllCfg>& ells() {
       double qm = gh::quarter_meridian(e.a, e.f);
       c.tol = e.ex ? gh::doc_exact(c.b / c.a) * qm / 1e7 : gh::doc_series(e.f) * e.a / gh::WGS84_A;
       c.circ = 2 * M_PI * std::max(c.a, c.b);
-      c.g.reset(new Geodesic(e.a, e.f, e.ex)); c.in.reset(new Intersect(*c.g));
+      c.g.reset(vh::detached_new<Geodesic>([&] { return Geodesic(e.a, e.f, e.ex); }, [&] { return Geodesic(e.a * 1.25, 0.015, false); }));      // detached copies: harness/value_semantics.hpp
+      { std::unique_ptr<Geodesic> tmp(new Geodesic(e.a, e.f, e.ex)); c.in.reset(new Intersect(*tmp)); *tmp = Geodesic(e.a * 0.8, 0.012); }   // Intersect holds its own copy of the Geodesic
       c.El.reset(new ref::Ell<ld>((ld)e.a, (ld)e.f)); c.Eq.reset(new ref::Ell<q128>((q128)e.a, (q128)e.f));
       v.push_back(std::move(c));
     }
